@@ -25,6 +25,9 @@ func init() {
 	core.RegisterJudge("C05", "large", judgeC05Large)
 }
 
+// c05Shared is one caller-owned VM used for every case of the process, in addition to a fresh one.
+var c05Shared = &vm.VM{}
+
 var emptyStackSignatures = []string{"runtime error: index out of range [-1]", "runtime error: slice bounds out of range [:-1]"}
 
 func errMessage(err error) string {
@@ -82,6 +85,25 @@ func c05Program(p *vm.Program, env, env2 interface{}, step bool) (st *bcStats, o
 	if machine.Scope() != nil {
 		return st, out, rerr, "after a successful run a loop scope is still open"
 	}
+	// the same on a caller-owned VM that has already run other programs, some of which failed inside loops
+	if env2 != nil {
+		_, err2 := func() (o interface{}, e error) {
+			defer func() {
+				if r := recover(); r != nil {
+					e = fmt.Errorf("PANIC in VM.Run: %v", r)
+				}
+			}()
+			return c05Shared.Run(p, env2)
+		}()
+		if err2 == nil {
+			if n := len(c05Shared.Stack()); n != 0 {
+				return st, out, rerr, fmt.Sprintf("after a successful run on a long-lived VM %d value(s) are left on the stack", n)
+			}
+			if c05Shared.Scope() != nil {
+				return st, out, rerr, "after a successful run on a long-lived VM (which earlier ran programs that failed inside loops) a loop scope is still open"
+			}
+		}
+	}
 	return st, out, rerr, ""
 }
 
@@ -107,7 +129,7 @@ func judgeC05(c *core.Case, cfg *core.Config) core.Verdict {
 		return v
 	}
 	var log []string
-	st, _, rerr, viol := c05Program(p, spec.Build(&log), nil, false)
+	st, _, rerr, viol := c05Program(p, spec.Build(&log), spec.Build(&log), false)
 	if viol != "" {
 		v.Violation = viol + "\n" + p.Disassemble()
 		if len(v.Violation) > 4000 {
@@ -180,6 +202,27 @@ func c05Large(kind string, n int) *core.X {
 		return core.Len(core.Builtin("filter", core.Var("Xs", core.TInts), core.Bin(">", core.Len(ids(n)), &core.X{K: "ptr", Ty: core.TInt}, core.TBool), core.SeqOf(core.TInt, core.RepIface)))
 	case "constants": // more than 65 535 distinct constants
 		return core.Len(distinct(n))
+	case "exact-loop", "exact-cond", "exact-and":
+		// byte-exact sizes around the 16-bit limit: n = 4*adds + negs (each `+ 1` is 4 bytes of bytecode: a 3-byte
+		// push and a 1-byte add; each unary minus is 1 byte)
+		adds, negs := n/4, n%4
+		var body *core.X = &core.X{K: "ptr", Ty: core.TInt}
+		if kind != "exact-loop" {
+			body = core.Var("I", core.TInt)
+		}
+		for i := 0; i < negs; i++ {
+			body = core.Un("-", body, core.TInt)
+		}
+		for i := 0; i < adds; i++ {
+			body = core.Bin("+", body, core.LitInt(1), core.TInt)
+		}
+		switch kind {
+		case "exact-loop":
+			return core.Builtin("map", core.Var("Xs", core.TInts), body, core.TAInt)
+		case "exact-cond":
+			return core.Cond(B, body, five, core.TInt)
+		}
+		return core.Bin("and", B, core.Bin(">", body, five, core.TBool), core.TBool)
 	}
 	panic("c05Large " + kind)
 }
@@ -229,6 +272,8 @@ func judgeC05Large(c *core.Case, cfg *core.Config) core.Verdict {
 	v.NonTriv = true
 	return v
 }
+
+var c05ExactKinds = []string{"exact-loop", "exact-cond", "exact-and"}
 
 var c05LargeKinds = []string{"cond-then", "cond-else", "and-right", "or-right", "loop-body", "loop-cond", "filter-body", "constants"}
 
@@ -281,6 +326,26 @@ func TestC05(t *testing.T) {
 		envs := [][]int{{1, 2, 100000}}
 		if cfg.Thorough() {
 			envs = append(envs, []int{})
+		}
+		// byte-exact sweep across the limit of the 2-byte jump operand (65 535): every size in a window around it
+		for _, kind := range c05ExactKinds {
+			lo, hi, step := 65490, 65560, 1
+			if !cfg.Thorough() {
+				lo, hi = 65500, 65550
+			}
+			for n := lo; n <= hi; n += step {
+				for _, b := range []bool{true, false} {
+					spec := core.FixedEnvSpecs()[1]
+					s := *spec
+					s.B, s.Xs = b, []int{1, 2}
+					c := pcase("C05", "large")
+					c.Env = &s
+					c.P["kind"], c.P["n"], c.P["opt"] = kind, n, false
+					if !yield(c) {
+						return
+					}
+				}
+			}
 		}
 		for _, kind := range c05LargeKinds {
 			ns := sizes
